@@ -438,76 +438,70 @@ Proof.
   - cbn [unix_sec nsec offset zname]. repeat split; subst ns; lia.
 Qed.
 
-Lemma time_to_ms_of_ms ms :
-  time_to_ms (ms_to_time ms) = Z.quot (wrap64 (ms * 1000000)) 1000000.
-Proof.
-  unfold time_to_ms, unix_nano.
-  destruct (ms_to_time_fields ms) as (Hs & Hn & _). rewrite Hs, Hn.
-  f_equal. f_equal. lia.
-Qed.
-
 Lemma wrap64_id z : - two63 <= z < two63 -> wrap64 z = z.
 Proof. unfold wrap64, two63, two64. intros H. lia. Qed.
 
-(** timeToMS inverts msToTime exactly as long as ms*10^6 fits an int64 (1677-09-21 .. 2262-04-11). *)
-Theorem ms_to_time_inverse : forall ms,
-  - two63 <= ms * 1000000 < two63 -> time_to_ms (ms_to_time ms) = ms.
+Lemma wrap64_add_l a b : wrap64 (wrap64 a + b) = wrap64 (a + b).
+Proof. unfold wrap64, two63, two64. lia. Qed.
+
+(* timeToMS (as repaired: seconds*1000 + nanoseconds/10^6 in int64 arithmetic) *)
+Lemma time_to_ms_unfold t : 0 <= nsec t ->
+  time_to_ms t = wrap64 (unix_sec t * 1000 + nsec t / 1000000).
+Proof. intros _. unfold time_to_ms. apply wrap64_add_l. Qed.
+
+Lemma time_to_ms_of_ms ms : time_to_ms (ms_to_time ms) = wrap64 ms.
 Proof.
-  intros ms H. rewrite time_to_ms_of_ms, wrap64_id by exact H. lia.
+  unfold time_to_ms. rewrite wrap64_add_l.
+  destruct (ms_to_time_fields ms) as (Hs & Hn & _). rewrite Hs, Hn. f_equal. lia.
 Qed.
+
+(** timeToMS inverts msToTime for EVERY int64 ms (since the repair of /repo commit 321eb7c;
+    before it this held only while ms*10^6 fitted an int64, i.e. 1677-09-21 .. 2262-04-11). *)
+Theorem ms_to_time_inverse : forall ms,
+  - two63 <= ms < two63 -> time_to_ms (ms_to_time ms) = ms.
+Proof. intros ms H. rewrite time_to_ms_of_ms. apply wrap64_id. exact H. Qed.
 Print Assumptions ms_to_time_inverse.
 Example ms_to_time_inverse_ex :
-  - two63 <= (-1) * 1000000 < two63 /\ ms_to_time (-1) = {| unix_sec := -1; nsec := 999000000; offset := 0; zname := "UTC" |}
-  /\ time_to_ms (ms_to_time (-1)) = -1.
+  ms_to_time (-1) = {| unix_sec := -1; nsec := 999000000; offset := 0; zname := "UTC" |}
+  /\ time_to_ms (ms_to_time (-1)) = -1
+  /\ time_to_ms (ms_to_time 253370764800000) = 253370764800000   (* 9999-01-01, see below *)
+  /\ time_to_ms (ms_to_time (- two63)) = - two63.
 Proof. vm_compute. repeat split; congruence. Qed.
 
-(** The property's round-trip demand fails beyond the int64 nanosecond range: the instant
-    9999-01-01T00:00:00.000Z (inside the property's domain) comes back negative.  This is the
-    Time.UnixNano overflow defect of timeToMS. *)
-Theorem time_to_ms_wraps_refuted :
+(* HISTORICAL (the defect repaired by /repo commit 321eb7c): the old timeToMS was
+   t.UnixNano()/10^6, i.e. [Z.quot (unix_nano t) 1000000]; UnixNano wraps outside
+   1677-09-21 .. 2262-04-11, so the instant 9999-01-01T00:00:00.000Z, inside the property's
+   domain, came back negative.  Kept as a statement about [unix_nano], which timeToMS no longer
+   uses. *)
+Theorem old_time_to_ms_wrapped :
   exists ms, in_roundtrip_domain ms /\ t_year (ms_to_time ms) = 9999 /\
-             time_to_ms (ms_to_time ms) <> ms /\ time_to_ms (ms_to_time ms) < 0.
+             Z.quot (unix_nano (ms_to_time ms)) 1000000 <> ms /\
+             Z.quot (unix_nano (ms_to_time ms)) 1000000 < 0.
 Proof.
   exists 253370764800000. unfold in_roundtrip_domain, ms_year_1000, ms_year_10000.
   split; [lia|]. split; [vm_compute; reflexivity|].
   split; [vm_compute; discriminate | vm_compute; reflexivity].
 Qed.
-Print Assumptions time_to_ms_wraps_refuted.
-
-(* the first instant after the epoch at which the round trip fails *)
-Example time_to_ms_first_failure :
-  time_to_ms (ms_to_time 9223372036854) = 9223372036854 /\
-  time_to_ms (ms_to_time 9223372036855) = -9223372036854.
-Proof. vm_compute. split; reflexivity. Qed.
+Print Assumptions old_time_to_ms_wrapped.
 
 (* ------------------------------------------------------------------------------------------ *)
 (** * 4. The 12-hour clock of [h] *)
 
-(** What formatHour prints for [h]: the property's 12,1..11,12,1..11 except at midnight,
-    where it prints 0. *)
-Theorem hour12_spec : forall h, 0 <= h <= 23 ->
-  hour12_of h = if h =? 0 then 0 else hour12_demanded h.
-Proof.
-  intros h Hh. unfold hour12_of, hour12_demanded.
-  destruct (12 <? h) eqn:E1, (h =? 0) eqn:E2, (h mod 12 =? 0) eqn:E3; lia.
-Qed.
+(** What formatHour prints for [h] (since the repair of /repo commit 36c4339): exactly the
+    property's 12,1..11,12,1..11.  (Before the repair hour 0 was printed as 0.) *)
+Theorem hour12_spec : forall h, hour12_of h = hour12_demanded h.
+Proof. intros h. reflexivity. Qed.
 Print Assumptions hour12_spec.
+Example hour12_ex : map hour12_of [0; 1; 11; 12; 13; 23] = [12; 1; 11; 12; 1; 11].
+Proof. reflexivity. Qed.
 
-Theorem hour12_refuted : exists h, 0 <= h <= 23 /\ hour12_of h <> hour12_demanded h.
-Proof. exists 0. split; [lia|]. vm_compute. discriminate. Qed.
-
-(* the deviation is exactly midnight *)
-Theorem hour12_deviates_only_at_midnight : forall h, 0 <= h <= 23 ->
-  (hour12_of h <> hour12_demanded h <-> h = 0).
-Proof.
-  intros h Hh. rewrite hour12_spec by exact Hh. unfold hour12_demanded.
-  destruct (h =? 0) eqn:E; destruct (h mod 12 =? 0) eqn:E3; lia.
-Qed.
+Theorem hour12_range : forall h, 1 <= hour12_of h <= 12.
+Proof. intros h. unfold hour12_of. destruct (h mod 12 =? 0) eqn:E; lia. Qed.
 
 (* [h] is wired to hour12_of: whatever format_integer is, $fromMillis(0, "[h]") prints the
-   integer 0 (the property demands 12) *)
+   integer 12, as the property demands *)
 Theorem from_millis_h_midnight (fi : Z -> string -> lres string) :
-  from_millis fi 0 (Some "[h]"%string) None = lbind (fi 0 "1"%string) (fun s => LOk (s ++ "")%string).
+  from_millis fi 0 (Some "[h]"%string) None = lbind (fi 12 "1"%string) (fun s => LOk (s ++ "")%string).
 Proof.
   unfold from_millis. cbn [opt_string]. 
   change (seqb "" "") with true. cbv iota.
@@ -534,9 +528,9 @@ Proof.
   change (104 =? cw) with false. change (104 =? cH) with false. change (104 =? ch) with true.
   cbv iota.
   unfold format_hour. cbn [mk_format]. change (is_decimal_format "1") with true. cbn [negb].
-  change (t_hour (ms_to_time 0)) with 0. change (hour12_of 0) with 0.
+  change (t_hour (ms_to_time 0)) with 0. change (hour12_of 0) with 12.
   unfold format_integer_component. cbn [mk_format mk_modifier].
-  destruct (fi 0 "1"%string) as [s| | | |]; cbn [lbind andb negb]; try reflexivity.
+  destruct (fi 12 "1"%string) as [s| | | |]; cbn [lbind andb negb]; try reflexivity.
   all: repeat match goal with |- context [seqb ?t "errUnsupported"] =>
          destruct (seqb t "errUnsupported") end.
   all: cbn [andb lbind fs_in_marker fs_expanded negb fs_result fs_start]; reflexivity.
@@ -1013,6 +1007,41 @@ Definition local_year (ms off : Z) : Z :=
   let '(y, _, _) := civil_of_days ((ms / 1000 + off) / 86400) in y.
 
 
+(* 1 January is monotone in the year, hence a bound on the local year bounds the instant *)
+Lemma jan1_step y : days_of_civil y 1 1 + 365 <= days_of_civil (y + 1) 1 1.
+Proof.
+  unfold days_of_civil.
+  repeat match goal with |- context [if ?b then _ else _] =>
+         let v := eval vm_compute in b in
+         match v with
+         | true => change b with true; cbv iota
+         | false => change b with false; cbv iota
+         end end.
+  replace (y + 1 - 1) with y by lia. lia.
+Qed.
+
+Lemma jan1_mono a b : a <= b -> days_of_civil a 1 1 <= days_of_civil b 1 1.
+Proof.
+  intros H. replace b with (a + Z.of_nat (Z.to_nat (b - a))) by lia.
+  generalize (Z.to_nat (b - a)). intros n. induction n as [|n IH]; [rewrite Z.add_0_r; lia|].
+  rewrite Nat2Z.inj_succ. unfold Z.succ. rewrite Z.add_assoc.
+  pose proof (jan1_step (a + Z.of_nat n)). lia.
+Qed.
+
+Lemma local_year_ms_bounds ms off : 0 <= local_year ms off <= 9999 -> -90000 < off < 90000 ->
+  -62167309200000 <= ms < 253402390800000.
+Proof.
+  intros Hy Hoff. unfold local_year in Hy.
+  pose proof (year_bounds ((ms / 1000 + off) / 86400)) as Hb.
+  destruct (civil_of_days ((ms / 1000 + off) / 86400)) as [[y mo] d].
+  pose proof (jan1_mono 0 y ltac:(lia)) as H0.
+  pose proof (jan1_mono (y + 1) 10000 ltac:(lia)) as H1.
+  change (days_of_civil 0 1 1) with (-719528) in H0.
+  change (days_of_civil 10000 1 1) with 2932897 in H1.
+  lia.
+Qed.
+
+
 Section InverseLaw.
 
 (* What the proof needs to know about FormatNumber(float64(n), layout) — three facts about the
@@ -1261,10 +1290,10 @@ Lemma to_millis_from_millis_default_gen : forall ms tz off,
   -90000 < off < 90000 ->
   1000 <= local_year ms off <= 9999 ->
   let ms' := ms + 1000 * (off - zoff_of (Z.quot off 3600) (Z.quot (Z.rem off 3600) 60)) in
-  - two63 <= ms' * 1000000 < two63 ->
   exists text, from_millis fi ms None tz = LOk text /\ to_millis fi text None None = LOk ms'.
 Proof.
-  intros ms tz off Htz Hrange Hyear ms' Hwrap.
+  intros ms tz off Htz Hrange Hyear ms'.
+  pose proof (local_year_ms_bounds ms off ltac:(lia) Hrange) as Hms.
   destruct (ms_to_time_fields ms) as (Fs & Fn & Fo & Fz).
   (* the time value FormatTime receives *)
   assert (exists t, unix_sec t = ms / 1000 /\ nsec t = (ms mod 1000) * 1000000 /\ offset t = off /\
@@ -1300,38 +1329,40 @@ Proof.
   destruct (parse_default_text y mo d (t_hour t) (t_minute t) (t_second t) (ms mod 1000) h m)
     as (t' & Hparse & Hu & Hn); try lia.
   rewrite Hparse. f_equal.
-  unfold time_to_ms, unix_nano. rewrite Hu, Hn, Hdays.
+  unfold time_to_ms. rewrite wrap64_add_l, Hu, Hn, Hdays.
   assert (t_days t * 86400 + t_hour t * 3600 + t_minute t * 60 + t_second t = ms / 1000 + off) as Hloc.
   { unfold t_days, t_hour, t_minute, t_second, t_sod, t_local_sec. rewrite Ts, To.
     generalize (ms / 1000 + off). intros L. lia. }
   rewrite Hloc.
-  replace ((ms / 1000 + off - zoff_of h m) * 1000000000 + ms mod 1000 * 1000000)
-    with (ms' * 1000000) by (subst ms'; lia).
-  rewrite wrap64_id by exact Hwrap. lia.
+  replace ((ms / 1000 + off - zoff_of h m) * 1000 + ms mod 1000 * 1000000 / 1000000)
+    with ms' by (subst ms'; lia).
+  apply wrap64_id.
+  assert (-90000 <= zoff_of h m <= 90000) by (unfold zoff_of; destruct (0 <=? h); lia).
+  subst ms'. fold h m. unfold two63. lia.
 Qed.
 
-(** PARTIAL inverse law ($toMillis after $fromMillis, default picture).  Proved for: every
-    instant whose local year is 1000..9999 and whose nanosecond count fits an int64 (the
-    UnixNano defect excludes the rest, see [time_to_ms_wraps_refuted]); no zone, or any zone
-    string the code accepts whose offset is a whole number of minutes, below 25h in
-    magnitude, and NOT in (-1h, 0) (the sign defect, see [offset_sign_defect] below).
+(** PARTIAL inverse law ($toMillis after $fromMillis, default picture).  Proved for: EVERY
+    instant whose local year is 1000..9999 (no int64-nanosecond restriction any more, since the
+    repair of timeToMS); no zone, or any zone string the code accepts whose offset is a whole
+    number of minutes, below 25h in magnitude, and NOT in (-1h, 0) (the sign defect, see
+    [offset_sign_defect] below).
     What is missing for the full property: (a) it is conditional on the three stated facts about
-    FormatNumber; (b) instants beyond 2262-04-11 / before 1677-09-21 and offsets in (-1h,0) are
-    genuinely false in the code; (c) pictures other than the default one are not covered. *)
+    FormatNumber (validated against the real FormatNumber by the vector generator); (b) offsets
+    in (-1h,0) are genuinely false in the code; (c) of the other pictures only
+    [explicit_picture] is covered (section 6b). *)
 Theorem to_millis_from_millis_default_partial : forall ms tz off,
   (tz = None /\ off = 0) \/
   (exists s, tz = Some s /\ s <> EmptyString /\ parse_time_zone s = LOk (off, s)) ->
   off mod 60 = 0 -> -90000 < off < 90000 -> ~ (-3600 < off < 0) ->
   1000 <= local_year ms off <= 9999 ->
-  - two63 <= ms * 1000000 < two63 ->
   exists text, from_millis fi ms None tz = LOk text /\ to_millis fi text None None = LOk ms.
 Proof.
-  intros ms tz off Htz Hmin Hrange Hsign Hyear Hwrap.
+  intros ms tz off Htz Hmin Hrange Hsign Hyear.
   assert (zoff_of (Z.quot off 3600) (Z.quot (Z.rem off 3600) 60) = off) as Hz
     by (unfold zoff_of; destruct (0 <=? Z.quot off 3600) eqn:E; lia).
   pose proof (to_millis_from_millis_default_gen ms tz off Htz Hrange Hyear) as H.
   cbv zeta in H. rewrite Hz in H. replace (ms + 1000 * (off - off)) with ms in H by lia.
-  exact (H Hwrap).
+  exact H.
 Qed.
 
 (** The sign defect: for a zone offset strictly between -1h and 0 (e.g. "-0030") the rendered
@@ -1341,17 +1372,16 @@ Theorem offset_sign_defect : forall ms s off,
   s <> EmptyString -> parse_time_zone s = LOk (off, s) ->
   off mod 60 = 0 -> -3600 < off < 0 ->
   1000 <= local_year ms off <= 9999 ->
-  - two63 <= (ms + 2000 * off) * 1000000 < two63 ->
   exists text, from_millis fi ms None (Some s) = LOk text /\
                to_millis fi text None None = LOk (ms + 2000 * off) /\ ms + 2000 * off <> ms.
 Proof.
-  intros ms s off Hne Hp Hmin Hoff Hyear Hwrap.
+  intros ms s off Hne Hp Hmin Hoff Hyear.
   assert (zoff_of (Z.quot off 3600) (Z.quot (Z.rem off 3600) 60) = - off) as Hz
     by (unfold zoff_of; destruct (0 <=? Z.quot off 3600) eqn:E; lia).
   pose proof (to_millis_from_millis_default_gen ms (Some s) off
                 (or_intror (ex_intro _ s (conj eq_refl (conj Hne Hp)))) ltac:(lia) Hyear) as H.
   cbv zeta in H. rewrite Hz in H. replace (ms + 1000 * (off - - off)) with (ms + 2000 * off) in H by lia.
-  destruct (H Hwrap) as (text & H1 & H2). exists text. repeat split; auto. lia.
+  destruct H as (text & H1 & H2). exists text. repeat split; auto. lia.
 Qed.
 End InverseLaw.
 
@@ -1378,7 +1408,6 @@ Proof.
   - lia.
   - lia.
   - vm_compute. split; discriminate.
-  - unfold two63. lia.
 Qed.
 
 Example offset_sign_defect_ex :
@@ -1713,18 +1742,20 @@ Proof.
   vm_compute. split; discriminate.
 Qed.
 
-(** PARTIAL: the inverse law through the explicit picture, same domain restrictions as for the
-    default picture (local year 0..9999 suffices here, since [Y0001] pads the year). *)
+(** PARTIAL: the inverse law through the explicit picture, same zone restrictions as for the
+    default picture; every instant of the local years 0..9999 ([Y0001] pads the year).  Other
+    pictures "built from" these components (without [f001], date-only, [Z0101]) are validated
+    by vectors only. *)
 Theorem to_millis_from_millis_explicit_partial : forall ms tz off,
   (tz = None /\ off = 0) \/
   (exists s, tz = Some s /\ s <> EmptyString /\ parse_time_zone s = LOk (off, s)) ->
   off mod 60 = 0 -> -90000 < off < 90000 -> ~ (-3600 < off < 0) ->
   0 <= local_year ms off <= 9999 ->
-  - two63 <= ms * 1000000 < two63 ->
   exists text, from_millis fi ms (Some explicit_picture) tz = LOk text /\
                to_millis fi text (Some explicit_picture) tz = LOk ms.
 Proof.
-  intros ms tz off Htz Hmin Hrange Hsign Hyear Hwrap.
+  intros ms tz off Htz Hmin Hrange Hsign Hyear.
+  pose proof (local_year_ms_bounds ms off Hyear Hrange) as Hms.
   destruct (ms_to_time_fields ms) as (Fs & Fn & Fo & Fz).
   assert (exists t, unix_sec t = ms / 1000 /\ nsec t = (ms mod 1000) * 1000000 /\ offset t = off /\
                     from_millis fi ms (Some explicit_picture) tz = format_time fi t explicit_picture)
@@ -1758,15 +1789,15 @@ Proof.
   destruct (parse_explicit_text y mo d (t_hour t) (t_minute t) (t_second t) (ms mod 1000) h m)
     as (t' & Hparse & Hu & Hn); try lia.
   rewrite Hparse. f_equal.
-  unfold time_to_ms, unix_nano. rewrite Hu, Hn, Hdays.
+  unfold time_to_ms. rewrite wrap64_add_l, Hu, Hn, Hdays.
   assert (zoff_of h m = off) as Hz by (unfold zoff_of; subst h m; destruct (0 <=? Z.quot off 3600) eqn:E; lia).
   rewrite Hz.
   assert (t_days t * 86400 + t_hour t * 3600 + t_minute t * 60 + t_second t = ms / 1000 + off) as Hloc.
   { unfold t_days, t_hour, t_minute, t_second, t_sod, t_local_sec. rewrite Ts, To.
     generalize (ms / 1000 + off). intros L. lia. }
   rewrite Hloc.
-  replace ((ms / 1000 + off - off) * 1000000000 + ms mod 1000 * 1000000) with (ms * 1000000) by lia.
-  rewrite wrap64_id by exact Hwrap. lia.
+  replace ((ms / 1000 + off - off) * 1000 + ms mod 1000 * 1000000 / 1000000) with ms by lia.
+  apply wrap64_id. unfold two63. lia.
 Qed.
 End InverseLawExplicit.
 Print Assumptions to_millis_from_millis_explicit_partial.
